@@ -344,6 +344,13 @@ pub(crate) fn rewrite_range_pat<T: Rewrite>(
             Some(_) => " ",
         };
         format!("{lhs_spacing}{infix}{rhs_spacing}")
+    } else if lhs
+        .as_ref()
+        .and_then(|lhs| lhs.rewrite(context, shape))
+        .is_some_and(|lhs| lhs.ends_with('.'))
+    {
+        // Don't format `1. ..=2.` into `1...=2.`, which is invalid.
+        format!(" {infix}")
     } else {
         infix.to_owned()
     };
